@@ -175,6 +175,12 @@ TCodecInfo ==
     /\ CodecInfo(ev.c)
     /\ Match(out')
 
+TLitProg == IsOp("litprog") /\ LitProg(ev.macro, ev.bytes) /\ Match(out')
+TKmerLit == IsOp("kmerlit") /\ KmerLit(ev.bytes, StBits(ev.st)) /\ Match(out')
+TLitVerdict == IsOp("litverdict") /\ LitVerdict(ev.macro, ev.bytes) /\ Match(out')
+TDeriveProg == IsOp("derive") /\ DeriveProg(ev.decl) /\ Match(out')
+TDeriveVerdict == IsOp("deriveverdict") /\ DeriveVerdict(ev.decl, ev.malformed) /\ Match(out')
+
 \* a known finding taken as observed
 TDeviation ==
     /\ l <= Len(Rec) /\ Deviation /\ l' = l + 1
@@ -196,6 +202,7 @@ TraceNext ==
     \/ TConvert \/ TTextBase
     \/ TToAmino \/ TTryToAmino \/ TTryToCodon \/ TTableNew \/ TTableAmino \/ TTableCodon
     \/ TCell \/ TCodecInfo
+    \/ TLitProg \/ TKmerLit \/ TLitVerdict \/ TDeriveProg \/ TDeriveVerdict
     \/ TDeviation
 
 TraceSpec == TraceInit /\ [][TraceNext]_tvars
